@@ -27,9 +27,11 @@ pub fn status_str(s: &PolytopeStatus) -> String {
 }
 
 /// a constraint system of a random class
-pub fn rand_system(rng: &mut Rng) -> Polytope {
+/// `tiny`: also systems with coefficients far below the LP solver's pivot tolerance (only meaningful for the
+/// operations that do not consult the solver)
+pub fn rand_system(rng: &mut Rng, tiny: bool) -> Polytope {
     let n = 1 + rng.below(4);
-    let class = rng.below(9);
+    let class = rng.below(if tiny { 11 } else { 10 });
     let mut rows: Vec<(Vec<f64>, f64)> = Vec::new();
     let unit = |j: usize, s: f64| -> Vec<f64> { (0..n).map(|k| if k == j { s } else { 0.0 }).collect() };
     match class {
@@ -101,6 +103,39 @@ pub fn rand_system(rng: &mut Rng) -> Polytope {
             }
             rows.push((vec![1.0; n], 1.0 + rng.below(4) as f64));
         }
+        9 => {
+            // axis-aligned strip away from the origin: every coordinate boxed, bounded below only or above only
+            for j in 0..n {
+                let lo = 1 + rng.below(3) as i64;
+                match rng.below(3) {
+                    0 => {
+                        rows.push((unit(j, -1.0), -(lo as f64)));
+                        rows.push((unit(j, 1.0), (lo + 1 + rng.below(3) as i64) as f64));
+                    }
+                    1 => rows.push((unit(j, -1.0), -(lo as f64))),
+                    _ => rows.push((unit(j, 1.0), -(lo as f64))),
+                }
+            }
+        }
+        10 => {
+            // rows with tiny but non-zero coefficients (far-away faces) among ordinary ones
+            for _ in 0..1 + rng.below(2) {
+                let mut r = vec![0.0; n];
+                let tiny = *rng.pick(&[(2.0f64).powi(-60), -(2.0f64).powi(-60), (2.0f64).powi(-55), (2.0f64).powi(-70)]);
+                for v in r.iter_mut() {
+                    if rng.chance(2, 3) {
+                        *v = tiny;
+                    }
+                }
+                if r.iter().all(|v| *v == 0.0) {
+                    r[0] = tiny;
+                }
+                rows.push((r, *rng.pick(&[1.0, -1.0, 0.0, 2.0])));
+            }
+            for _ in 0..rng.below(4) {
+                rows.push(((0..n).map(|_| rng.lat_int()).collect(), rng.range(0, 5) as f64));
+            }
+        }
         _ => {
             // single half-space or strip: lineality space of dimension n-1
             let a: Vec<f64> = (0..n).map(|_| rng.lat_int()).collect();
@@ -126,7 +161,7 @@ pub fn rand_system(rng: &mut Rng) -> Polytope {
 }
 
 pub fn case(rng: &mut Rng) -> String {
-    let p = rand_system(rng);
+    let p = rand_system(rng, false);
     let n = p.indim();
     let mut out = String::from("C10 ");
     enc::poly(&mut out, &p);
@@ -180,9 +215,9 @@ pub fn case(rng: &mut Rng) -> String {
 
 /// C15: the clean-up operations on the same classes of systems
 pub fn cleanup_case(rng: &mut Rng) -> String {
-    let p = rand_system(rng);
-    let mut out = String::from("C15 ");
     let op = rng.below(7);
+    let p = rand_system(rng, op != 2 && op != 6);
+    let mut out = String::from("C15 ");
     let name = ["remove_tautologies", "remove_duplicate_rows", "remove_redundant", "normalize", "remove_zero_rows", "remove_rows", "remove_redundant"][op];
     write!(out, "{} ", name).unwrap();
     enc::poly(&mut out, &p);
